@@ -27,6 +27,7 @@ type Engine struct {
 	lockTags []string
 	panicTag map[string][]string
 	loadSecs float64
+	sortedNames []string
 }
 
 func (e *Engine) panicTagsFor(fn string) []string { return nil }
@@ -91,14 +92,18 @@ func loadEngine(repo string) (*Engine, error) {
 
 // newVC prepares the verification of one function for one property projection.
 func (e *Engine) newVC(name, prop string) (*FuncVC, error) {
-	fn := e.funcs[name]
+	fname, stage := name, ""
+	if i := strings.Index(name, "+"); i >= 0 {
+		fname, stage = name[:i], name[i+1:]
+	}
+	fn := e.funcs[fname]
 	if fn == nil {
 		return nil, fmt.Errorf("contract for %s: no such function in the package", name)
 	}
 	ct := e.spec.Contracts[name]
 	vc := &FuncVC{eng: e, w: newWorld(e.pkg.Types), fn: fn, name: name, contract: ct, prop: prop,
 		heapInits: map[string]string{}, heapSorts: map[string]string{}, glue: map[string][]glueCand{}, glueInit: map[string]bool{},
-		loopInfos: map[*ssa.Function]*loopInfo{}, assumed: map[string]bool{}, trusted: map[string]bool{}, maxPaths: 20000}
+		loopInfos: map[*ssa.Function]*loopInfo{}, assumed: map[string]bool{}, trusted: map[string]bool{}, maxPaths: 20000, compose: stage}
 	return vc, nil
 }
 
@@ -113,10 +118,12 @@ func (vc *FuncVC) symbolicRun() {
 	vc.returns = 0
 	vc.aborted = ""
 	vc.callOrds = nil
+	vc.composeArgs = nil
+	vc.deferredReq = nil
 	vc.w = newWorld(vc.eng.pkg.Types)
 	fn := vc.fn
 	ct := vc.contract
-	st := &State{vc: vc, heap: map[string]string{}, ghost: map[string]V{}, closures: map[string]*Closure{}}
+	st := &State{vc: vc, heap: map[string]string{}, ghost: map[string]V{}, closures: map[string]*Closure{}, shadow: map[string]any{}, freshRefs: map[string]bool{}}
 	fr := &Frame{fn: fn, env: map[ssa.Value]any{}, cuts: map[*ssa.BasicBlock]*loopCut{}, block: fn.Blocks[0]}
 	st.frames = []*Frame{fr}
 	vc.entryVars = map[string]any{}
@@ -155,6 +162,15 @@ func (vc *FuncVC) symbolicRun() {
 		if ct != nil {
 			for _, c := range ct.Requires {
 				if !vc.inProp(c.Tags) {
+					continue
+				}
+				if vc.compose != "" {
+					// clauses about second-stage parameters are assumed when that stage starts
+					if g, ok := vc.tryBool(sc, c.E); ok {
+						st.assume(g)
+					} else {
+						vc.deferredReq = append(vc.deferredReq, c)
+					}
 					continue
 				}
 				g, ok := vc.safeBool(sc, c.E, "requires")
@@ -349,4 +365,108 @@ func (vc *FuncVC) frameCheck(st *State, sc *Scope, ct *Contract) {
 		vc.addOblig(st, "frame", "frame:"+h, ct.AssignTags, goal)
 		st.pc = st.pc[:save]
 	}
+}
+
+// composeStep: for a composed contract "F+call" / "F+<method>" the value F
+// returned is applied (called, or its method invoked) to fresh arguments and
+// the contract's postconditions are checked after that second stage.
+func (vc *FuncVC) composeStep(st *State, res []any) {
+	st.composed = true
+	if len(res) != 1 {
+		vc.unsupportedf("compose: %s does not return exactly one value", vc.fn.Name())
+		panic(abortPath{"compose"})
+	}
+	var target *ssa.Function
+	var bindings, args []any
+	if vc.compose == "call" {
+		var c *Closure
+		switch x := res[0].(type) {
+		case *Closure:
+			c = x
+		case V:
+			c = st.closures[x.T]
+		}
+		if c == nil {
+			vc.unsupportedf("compose: result of %s is not a known closure", vc.fn.Name())
+			panic(abortPath{"compose"})
+		}
+		target, bindings = c.Fn, c.Bindings
+	} else {
+		v, ok := res[0].(V)
+		if !ok || !strings.HasPrefix(v.T, "(mkI ") {
+			vc.unsupportedf("compose: result of %s has no syntactic dynamic type", vc.fn.Name())
+			panic(abortPath{"compose"})
+		}
+		f := strings.Fields(v.T)
+		tc := f[1]
+		gt := vc.w.typeConsts[tc]
+		if gt == nil {
+			vc.unsupportedf("compose: unknown dynamic type %s", tc)
+			panic(abortPath{"compose"})
+		}
+		sel := vc.eng.prog.MethodSets.MethodSet(gt).Lookup(vc.eng.pkg.Types, vc.compose)
+		if sel == nil {
+			vc.unsupportedf("compose: %s has no method %s", gt, vc.compose)
+			panic(abortPath{"compose"})
+		}
+		target = vc.eng.prog.MethodValue(sel)
+		so := vc.w.sortOf(gt)
+		recv := vc.unboxTerm(so, app("pay", v.T))
+		// (mkI T (bInt x)) -> x, so that the receiver keeps its syntactic identity
+		if len(f) == 4 && strings.HasPrefix(f[2], "(b") && strings.HasSuffix(f[3], "))") {
+			recv = strings.TrimSuffix(f[3], "))")
+		}
+		args = []any{V{recv, so, gt}}
+	}
+	nf := &Frame{fn: target, env: map[ssa.Value]any{}, cuts: map[*ssa.BasicBlock]*loopCut{}, block: target.Blocks[0]}
+	ct := vc.contract
+	base := len(vc.fn.Params)
+	for i, p := range target.Params {
+		var a any
+		if i < len(args) {
+			a = args[i]
+		} else {
+			key := fmt.Sprintf("%d", i)
+			if vc.composeArgs == nil {
+				vc.composeArgs = map[string]V{}
+			}
+			v, ok := vc.composeArgs[key]
+			if !ok {
+				v = V{vc.fresh("p2_"+p.Name(), vc.w.sortOf(p.Type())), vc.w.sortOf(p.Type()), p.Type()}
+				vc.composeArgs[key] = v
+			}
+			st.assume(intRange(p.Type(), v.T))
+			vc.assumeTypeWF(st, v, p.Type())
+			a = v
+			k := base + i - len(args)
+			if ct != nil && k < len(ct.Params) && ct.Params[k] != "_" {
+				vc.entryVars[ct.Params[k]] = v
+			}
+		}
+		nf.env[p] = a
+	}
+	for i, fv := range target.FreeVars {
+		if i < len(bindings) {
+			nf.env[fv] = bindings[i]
+		}
+	}
+	st.frames = []*Frame{nf}
+	sc := vc.newScope(st, vc.baseVars(st))
+	for _, c := range vc.deferredReq {
+		g, ok := vc.safeBool(sc, c.E, "requires")
+		if ok {
+			st.assume(g)
+		}
+	}
+	st.event("compose %s", relName(target))
+}
+
+func (e *Engine) funcNames() []string {
+	if e.sortedNames == nil {
+		for n := range e.funcs {
+			e.sortedNames = append(e.sortedNames, n)
+		}
+		sort.Strings(e.sortedNames)
+	}
+	return e.sortedNames
 }
